@@ -57,6 +57,11 @@ ND_RECORDS = {
     "e": b'  {"e":2}  \n',
     "f": b'"x"\r',
     "h": '{"h":"x\ufeffy"}\n'.encode(),  # U+FEFF inside a string value
+    "i": b"{}\n",          # records that are falsy in Python are records all the same
+    "j": b"0\n",
+    "k": b"null\n",
+    "l": b'""\n',
+    "m": b"false\n",
     "g": b'{"c":{"d":null}}',  # unterminated last record
 }
 ND_CORE = "abcefg"
